@@ -10,6 +10,7 @@ def run(tier):
     out.add_replay(rp, "samplegen")
     rd = replay.Replay("harness.modes:c14delta")
     rd.run_lens("delta_ops")
+    rd.run_lens("delta_indep")
     out.add_replay(rd, "termmachine")
     ri = replay.Replay("harness.modes:c14integ")
     ri.run_lens("delta_integ")
